@@ -23,7 +23,7 @@ theorem removeItem_pre (p : Path) (k : String) (x : J) :
 
 theorem diffLeaf_pre (a b : J) (p : Path) : diffLeaf a b p = (diffLeaf a b []).map (pre p) := by
   unfold diffLeaf
-  by_cases h : pyEq a b = true
+  by_cases h : same a b = true
   · simp [h]
   · simp only [h, Bool.false_eq_true, if_false]
     cases a <;> cases b <;> simp [pre]
@@ -73,7 +73,7 @@ theorem diff_pre (a : J) : ∀ (b : J) (p : Path), diff a b p = (diff a b []).ma
       cases b <;> simp [isObj] at hb
       rename_i kb
       rw [diff_obj_obj, diff_obj_obj]
-      by_cases h : pyEq (.obj ka) (.obj kb) = true
+      by_cases h : same (.obj ka) (.obj kb) = true
       · simp [h]
       · simp only [h, Bool.false_eq_true, if_false, List.map_append]
         rw [diffAdded_pre, diffRemoved_pre, diffCommon_pre ka kb p ih]
@@ -121,8 +121,8 @@ theorem resolveD_obj_cons (ka : Kvs) (k : String) (q : Path) :
   simp only [resolveD, resolve?]
   cases lookup k ka <;> simp
 
-theorem pyEq_resolveD (p : Path) : ∀ (a b : J), wf a = true → wf b = true → pyEq a b = true →
-    pyEq (resolveD a p) (resolveD b p) = true := by
+theorem pyEq_resolveD (p : Path) : ∀ (a b : J), wf a = true → wf b = true → same a b = true →
+    same (resolveD a p) (resolveD b p) = true := by
   induction p with
   | nil => intro a b _ _ h; simpa [resolveD_nil] using h
   | cons k q ih =>
@@ -180,7 +180,7 @@ theorem reduce_addItem_root (y : J) (q : Path) : reduce (addItem [] y) q = diff 
     by_cases hq : q = []
     · subst hq
       rw [if_pos rfl, resolveD_nil, diff_leaf_left _ _ (by rfl)]
-      cases y <;> simp [diffLeaf, pyEq] at hy ⊢
+      cases y <;> simp [diffLeaf, same] at hy ⊢
     · rw [if_neg hq, resolveD_null]
 
 theorem reduce_removeItem_root (x : J) (q : Path) : reduce (removeItem [] x) q = diff (resolveD x q) .null [] := by
@@ -192,7 +192,7 @@ theorem reduce_removeItem_root (x : J) (q : Path) : reduce (removeItem [] x) q =
     by_cases hq : q = []
     · subst hq
       rw [if_pos rfl, resolveD_nil, diff_leaf_right _ _ (by rfl)]
-      cases x <;> simp [diffLeaf, pyEq] at hx ⊢
+      cases x <;> simp [diffLeaf, same] at hx ⊢
     · rw [if_neg hq, resolveD_null]
 
 theorem reduce_nil (p : Path) : reduce [] p = [] := by simp [reduce]
@@ -280,15 +280,15 @@ theorem reduce_common (kb : Kvs) (k : String) (q : Path) : ∀ (ka : Kvs), nodup
       | none => simp only [reduce_nil, List.nil_append]
       | some y => simp only []; rw [diff_pre x0 y [k0], reduce_map_pre_other _ _ hk, List.nil_append]
 
-theorem diffLeaf_single {a b : J} (p : Path) (h : pyEq a b = false) : ∃ op, diffLeaf a b p = [⟨op, p, a, b⟩] := by
+theorem diffLeaf_single {a b : J} (p : Path) (h : same a b = false) : ∃ op, diffLeaf a b p = [⟨op, p, a, b⟩] := by
   unfold diffLeaf
   simp only [h, Bool.false_eq_true, if_false]
-  cases a <;> cases b <;> first | exact ⟨_, rfl⟩ | (simp [pyEq] at h)
+  cases a <;> cases b <;> first | exact ⟨_, rfl⟩ | (simp [same] at h)
 
 theorem reduce_leaf {a b : J} (k : String) (q : Path) 
     (hno : a.isObj = false ∨ b.isObj = false) :
     reduce (diffLeaf a b []) (k :: q) = diff (resolveD a (k :: q)) (resolveD b (k :: q)) [] := by
-  cases h : pyEq a b with
+  cases h : same a b with
   | true =>
     have hio := pyEq_isObj h
     have ha : a.isObj = false := by rcases hno with h1 | h1; exact h1; rw [hio]; exact h1
@@ -323,7 +323,7 @@ theorem reduce_diff (p : Path) : ∀ (a b : J), wf a = true → wf b = true →
         cases b <;> simp [isObj] at hb
         rename_i ka kb
         rw [diff_obj_obj]
-        by_cases hpe : pyEq (.obj ka) (.obj kb) = true
+        by_cases hpe : same (.obj ka) (.obj kb) = true
         · rw [if_pos hpe, reduce_nil]
           exact (diff_of_pyEq [] (pyEq_resolveD (k :: q) _ _ hwa hwb hpe)).symm
         · rw [if_neg hpe]
